@@ -38,11 +38,16 @@ CHECKS = {
              "functions as written equal them outside the hard-coded special cases regenerated from the source, and everywhere when the "
              "kernel-evaluated consistency test of those cases holds. Verified checkers (labels are all 2^b distinct b-bit patterns, points "
              "pairwise distinct, nearest neighbours differ in one bit, unit average energy) with soundness theorems are applied by the kernel "
-             "to the table every modulator publishes; label-table model tied to PSK/QAM/PAM by exact comparison.",
+             "to the table every modulator publishes; label-table model tied to PSK/QAM/PAM by exact comparison. For M-PSK of every order the squared "
+             "chord 2 - 2cos(2 pi d/M) is proved strictly smallest for the two circular neighbours, which with the one-bit theorems gives the Gray "
+             "nearest-neighbour clause beyond the tables.",
         design="6/C14",
         note="Trusted: Coq kernel + vm_compute; translator harness/translate/grayconst.py; float32 coordinates taken as exact rationals with "
-             "relative tolerance 1e-4 (neighbour relation) / 1e-5 (energy). Geometry theorems for arbitrary order (cos/sin monotonicity) are "
-             "not formalised: the Gray-neighbour and energy clauses are decided per published table (all orders of the catalogue). Closed under the global context.",
+             "relative tolerance 1e-4 (neighbour relation) / 1e-5 (energy). For PSK of arbitrary order M the geometry is proved over the reals "
+             "(Mod/PSKGeomR.v: circular neighbours strictly nearest, equally near, points distinct; Coq Reals axioms "
+             "ClassicalDedekindReals.sig_not_dec, sig_forall_dec, FunctionalExtensionality.functional_extensionality_dep for those two theorems only); "
+             "for QAM / PAM grids the Gray-neighbour and energy clauses are decided per published table (all orders of the catalogue). "
+             "All other theorems closed under the global context.",
         technique="Coq proof (bitwise induction on N) + kernel-evaluated verified checkers on published tables + model/implementation correspondence by vm_compute"),
     "C15": dict(
         text="Coq theorems over the reals (Coq Reals) for every LLR: P(bit=1) = sigmoid(-LLR) is strictly decreasing and is above 1/2 exactly "
